@@ -13,11 +13,20 @@
       hnsw_entry_removed_empty      ¬ NonEmptyFull     known finding D2
       hnsw_small_exact_false        ¬ SmallExactFull   known finding D2
       hnsw_clusters_disconnect      ¬ ReachableFull    known finding D3
-      hnsw_removal_disconnects      ¬ ReachableFull (no pruning, entry live)   known finding D21
+      hnsw_removal_disconnects      ¬ Reachable, no pruning, entry live   known finding D21
       hnsw_old_order_no_inlinks     the statement order before fix fb5d06f loses every in-link (D1, fixed)
-  What holds is proved under explicit decidable hypotheses (`…_partial`).
+  What holds is proved by induction over arbitrary histories under explicit decidable
+  hypotheses:
+      hnsw_nonempty_partial         every history, size and ef; hypothesis `entryLive` (= ¬ trigger of D2)
+      hnsw_small_exact_partial      `smallRegime`: entryLive, never more than n ≤ min (2M+1) efC vertices; ef ≥ n
+      hnsw_reachable_small          same regime
+  plus the graph-search theorems searchLayer_spec_{sound,complete,total} and the verified
+  checker reachSet_correct.  The partial theorems speak about COMPLETED model runs / searches
+  (`run … = .ok s`, `searchSingle … = .ok (.ok res)`): that no fault (nil lookup, fuel) occurs
+  is proved for searchLayer (searchLayer_spec_total) but not for the greedy descent.
 -/
-import CometProofs.HNSWState
+import CometProofs.HNSWWeak
+import CometProofs.HNSWFuel
 namespace Comet.HNSW
 
 variable {V S : Type}
@@ -61,6 +70,15 @@ theorem searchLayer_spec_complete (m : Metric V S) (s : State V) (q : V) (ep : I
     ∀ v, Reach (liveSuccAt s layer) ep v → v ∈ res.map (·.id) :=
   searchLayer_complete m s q ef layer ep U hU hlen hep res h
 
+/-- **searchLayer_spec, fuel lemma.** If the neighbour lists of the layer point to resident
+    vertices and the entry vertex is resident (or soft-deleted), `searchLayer` completes:
+    `|nodes| + 1` rounds suffice, no nil lookup and no access to an empty heap happens. -/
+theorem searchLayer_spec_total (m : Metric V S) (s : State V) (q : V) (ep : Id) (ef layer : Nat)
+    (hres : ∀ j w, w ∈ nbrsAt s layer j → s.nodes.contains w = true)
+    (hep : isDeleted s ep = true ∨ s.nodes.contains ep = true) :
+    ∃ res, searchLayer m s q ep ef layer = .ok res :=
+  searchLayer_total m s q ef layer ep hres hep
+
 /-- a soft-deleted entry point yields nothing at all (the mechanism of D2) -/
 theorem searchLayer_deleted_entry (m : Metric V S) (s : State V) (q : V) (ep : Id) (ef layer : Nat)
     (hep : isDeleted s ep = true) : searchLayer m s q ep ef layer = .ok [] := by
@@ -72,20 +90,19 @@ theorem searchLayer_deleted_entry (m : Metric V S) (s : State V) (q : V) (ep : I
     every case that stays in the regime "entry point never soft-deleted, never more than
     2M+1 vertices, efConstruction never below the size") -/
 
-/-- **Clause 1, partial** (hypothesis: the entry point is resident and not soft-deleted —
-    the negation is the trigger of D2): every completed unrestricted search is non-empty,
-    for every `k ∈ ℤ` and every `ef`. -/
-theorem hnsw_nonempty_partial (m : Metric V S) (ord : m.sc.Ordered) (s : State V)
+/-- Clause 1 on a state (hypothesis: the entry point is resident and not soft-deleted):
+    every completed unrestricted search is non-empty, for every `k ∈ ℤ` and every `ef`. -/
+theorem hnsw_nonempty_state (m : Metric V S) (ord : m.sc.Ordered) (s : State V)
     (hentry : liveB s s.entry = true) (hml : s.maxLevel ≠ -1)
     (q q' : V) (k ef : Int) (hq : m.dimOf q = s.dim) (hpre : m.pre q = some q')
     (res : List (Hit S)) (h : searchSingle m s q k m.sc.zero [] ef = .ok (.ok res)) :
     res ≠ [] :=
   search_nonempty_state m ord s (liveB_iff.1 hentry) hml q q' k ef hq hpre res h
 
-/-- **Clause 2, partial**: entry point live, layer 0 complete on the live vertices, `ef` at
+/-- Clause 2 on a state: entry point live, layer 0 complete on the live vertices, `ef` at
     least their number ⇒ every completed search (any `k ∈ ℤ`, threshold, id restriction)
     is an exact top-k of the live vertices, scored by the metric. -/
-theorem hnsw_small_exact_partial (m : Metric V S) (ord : m.sc.Ordered) (s : State V)
+theorem hnsw_small_exact_state (m : Metric V S) (ord : m.sc.Ordered) (s : State V)
     (hcomp : complete0B s = true) (hentry : liveB s s.entry = true) (hml : s.maxLevel ≠ -1)
     (q q' : V) (k : Int) (thr : S) (F : List Id) (ef : Int)
     (hq : m.dimOf q = s.dim) (hpre : m.pre q = some q')
@@ -95,11 +112,70 @@ theorem hnsw_small_exact_partial (m : Metric V S) (ord : m.sc.Ordered) (s : Stat
   search_exact_state m ord s (complete0B_spec hcomp).1 (complete0B_spec hcomp).2
     (liveB_iff.1 hentry) hml q q' k thr F ef hq hpre hef res h
 
-/-- **Clause 3, partial**: entry point live and layer 0 complete ⇒ every live vertex is
+/-- Clause 3 on a state: entry point live and layer 0 complete ⇒ every live vertex is
     reachable from the entry point through live vertices of the bottom layer. -/
-theorem hnsw_reachable_small (s : State V)
+theorem hnsw_reachable_state (s : State V)
     (hcomp : complete0B s = true) (hentry : liveB s s.entry = true) : Reachable s :=
   reachable_state s (complete0B_spec hcomp).1 (liveB_iff.1 hentry)
+
+/-! ## what holds along histories (the `…_partial` theorems): induction over ANY history of
+    Add / Remove / Flush, any levels, any flush picks that Go's map order allows -/
+
+/-- **Clause 1, partial — every history, every size, every ef.**  Hypothesis `entryLive`: the
+    entry point is not soft-deleted at any add nor when the search runs (its negation is the
+    trigger of D2 — so this is exactly the part of clause 1 that the code has).  Whenever a
+    live vertex exists, every completed unrestricted search returns at least one hit. -/
+theorem hnsw_nonempty_partial (m : Metric V S) (ord : m.sc.Ordered)
+    (dim M efC efS : Nat) (ops : List (Op V)) (s : State V)
+    (hfresh : freshAdds ops = true) (hpicks : validPicks m (HNSW.init dim M efC efS) ops = true)
+    (hentry : entryLive m (HNSW.init dim M efC efS) ops = true)
+    (hrun : run m (HNSW.init dim M efC efS) ops = .ok s) (hlive : liveIds s ≠ [])
+    (q q' : V) (k ef : Int) (hq : m.dimOf q = dim) (hpre : m.pre q = some q')
+    (res : List (Hit S)) (h : searchSingle m s q k m.sc.zero [] ef = .ok (.ok res)) :
+    res ≠ [] := by
+  simp only [freshAdds, Bool.and_eq_true] at hfresh
+  obtain ⟨hw, hdim, hent⟩ := run_winv m ops (HNSW.init dim M efC efS) s (init_winv dim M efC efS)
+    (fun i _ => by simp [HNSW.init, IdMap.contains]) ((nodupB_iff _).1 hfresh.2) hpicks hentry hrun
+  obtain ⟨j, hj⟩ := List.exists_mem_of_ne_nil _ hlive
+  have hcnt : s.nodes.count ≠ 0 := count_ne_zero_of_live (mem_liveIds.1 hj)
+  have hml : s.maxLevel ≠ -1 := by have := hw.ml hcnt; omega
+  exact search_nonempty_state m ord s ⟨hw.entry_res hcnt, hent⟩ hml q q' k ef
+    (by rw [hdim]; exact hq) hpre res h
+
+/-- **Clause 2, partial.**  Regime (`smallRegime`, decidable on the history): fresh non-zero
+    ids, allowed flush picks, `entryLive`, and the index never holds more than
+    `n ≤ min (2M+1) efConstruction` vertices (the bound the code gives: pruning starts at the
+    `2M+2`-nd resident vertex; the property asks for `2M`).  Then every completed search with
+    `ef ≥ n` — any `k ∈ ℤ`, threshold, id restriction — is an exact top-k of the flat
+    specification's live list.  Invariant behind it (`Inv`, CometProofs/HNSWInv.lean): layer 0
+    is the complete digraph on the live vertices; preserved by insertNode (no list overflows,
+    `searchLayer` returns every live vertex), Remove and Flush (with re-election). -/
+theorem hnsw_small_exact_partial (m : Metric V S) (ord : m.sc.Ordered)
+    (dim M efC efS n : Nat) (ops : List (Op V)) (s : State V)
+    (hreg : smallRegime m dim M efC efS n ops = true)
+    (hrun : run m (HNSW.init dim M efC efS) ops = .ok s)
+    (q q' : V) (k : Int) (thr : S) (F : List Id) (ef : Int)
+    (hq : m.dimOf q = dim) (hpre : m.pre q = some q') (hef : n ≤ efUsed s ef)
+    (res : List (Hit S)) (h : searchSingle m s q k thr F ef = .ok (.ok res)) :
+    IsTopK m.sc.le k (Flat.cands m (liveSpec m dim ops) q' thr F) res :=
+  regime_exact m ord dim M efC efS n ops s hreg hrun q q' k thr F ef hq hpre hef res h
+
+/-- **Clause 3, partial.**  In the same regime every live vertex is reachable from the
+    entry point through live vertices of the bottom layer. -/
+theorem hnsw_reachable_small (m : Metric V S) (dim M efC efS n : Nat) (ops : List (Op V)) (s : State V)
+    (hreg : smallRegime m dim M efC efS n ops = true)
+    (hrun : run m (HNSW.init dim M efC efS) ops = .ok s) : Reachable s :=
+  regime_reachable m dim M efC efS n ops s hreg hrun
+
+/-- … and in that regime the model state is what the specification says: the live
+    `(id, vector)` pairs of the graph are those of the flat specification, and the bottom
+    layer is the complete digraph on them (what the driver checks on the exported graph). -/
+theorem hnsw_small_live_eq_spec (m : Metric V S) (dim M efC efS n : Nat) (ops : List (Op V)) (s : State V)
+    (hreg : smallRegime m dim M efC efS n ops = true)
+    (hrun : run m (HNSW.init dim M efC efS) ops = .ok s) :
+    (stateLive s).Perm (liveSpec m dim ops) ∧ Complete0 s :=
+  ⟨(regime_facts m dim M efC efS n ops s hreg hrun).2.2.2.2.2.2.2,
+   (regime_facts m dim M efC efS n ops s hreg hrun).1.comp⟩
 
 /-! ## the full statements (kept visible; the first and third are FALSE for the code) -/
 
@@ -301,11 +377,21 @@ example : complete0B stOK = true ∧ liveB stOK stOK.entry = true ∧ stOK.maxLe
     liveIds stOK = [1, 3, 4, 5, 6] ∧ validPicks toy pD2.init opsOK = true ∧ freshAdds opsOK = true := by
   decide +kernel
 -- the hypotheses of all three partial theorems hold of it:
-example : Reachable stOK := hnsw_reachable_small stOK (by decide +kernel) (by decide +kernel)
+example : Reachable stOK := hnsw_reachable_state stOK (by decide +kernel) (by decide +kernel)
 example : ∀ res, searchSingle toy stOK 24 2 0 [] 0 = .ok (.ok res) →
     IsTopK toy.sc.le 2 (Flat.cands toy (stateLive stOK) 24 0 []) res :=
-  fun res h => hnsw_small_exact_partial toy toy_ordered stOK (by decide +kernel) (by decide +kernel)
+  fun res h => hnsw_small_exact_state toy toy_ordered stOK (by decide +kernel) (by decide +kernel)
     (by decide +kernel) 24 24 2 0 [] 0 (by decide +kernel) rfl (by decide +kernel) res h
+-- the same history satisfies the regime of the history-level theorems with n = 5 = 2M+1:
+example : smallRegime toy 1 2 10 10 5 opsOK = true := by decide +kernel
+example : Reachable stOK := by
+  have hr : run toy (HNSW.init 1 2 10 10) opsOK = .ok stOK := by
+    have : (match run toy (HNSW.init 1 2 10 10) opsOK with | .ok _ => true | .error _ => false) = true := by
+      decide +kernel
+    simp only [stOK, pD2, Params.init]
+    split <;> simp_all
+  exact hnsw_reachable_small toy 1 2 10 10 5 opsOK stOK (by decide +kernel) hr
+example : liveSpec toy 1 opsOK = [(1, 0), (3, 20), (4, 30), (5, 40), (6, 25)] := by decide +kernel
 -- … and the search does complete, with the two nearest live points 25 (id 6) and 20 (id 3):
 example : (match searchSingle toy stOK 24 2 0 [] 0 with
     | .ok (.ok r) => r.map (fun (h : Hit Nat) => (h.id, h.score)) | _ => []) = [(6, 1), (3, 4)] := by decide +kernel
